@@ -120,3 +120,109 @@ Definition kills (a : list tact) : list act :=
   flat_map (fun x => match x with TKill w => [KillWorker w] | _ => [] end) a.
 
 Definition no_live_worker (ws : list (nat * tstat)) : bool := forallb (fun p => negb (t_alive (snd p))) ws.
+
+(* ================================================================== the WHOLE teardown, timed
+   Round 5.  The worker phase above is the middle of three phases; the other two take time as well,
+   and what the last one is given decides whether shared memory is left behind:
+
+     for worker, proc in workers:  callback(worker_address(worker), WorkerShutdown())    -- ask
+         comms.callback opens a socket with ZMQ_LINGER = 1000 ms, sends, and closes socket and
+         context: the close returns when the message was handed to the peer, or after the linger.
+         A live worker's endpoint takes it at once; the endpoint of a worker whose process is gone
+         never does: asking a dead worker costs the linger.
+     deadline = monotonic() + grace;  join / kill every worker                           -- reap (above)
+     if shm server alive:  shm_client.shutdown();  shm_process.join()                    -- shm
+         shm/server.py: on ShutdownCommand the server answers Ok FIRST, then leaves its loop and runs
+         Manager.atexit, which unlinks the segments it holds one after the other, then the process
+         exits.  Between the answer and the exit lies the sweep; a SIGKILL inside it leaves segments.
+     if data server alive: kill                                                          -- no time
+
+   Times are absolute, counted from the start of the teardown. *)
+Definition linger : Z := 1000.
+
+(* the ask phase from time `now`: a live worker that leaves d ms after it was asked leaves at the
+   absolute time (moment it was asked) + d; result: the workers with absolute leave times, end of the phase *)
+Fixpoint ask (now : Z) (ws : list (nat * tstat)) : list (nat * tstat) * Z :=
+  match ws with
+  | [] => ([], now)
+  | (w, c) :: r =>
+    match c with
+    | TExited _ => let '(r', e) := ask (now + linger) r in ((w, c) :: r', e)
+    | TLeaves d => let '(r', e) := ask now r in ((w, TLeaves (now + Z.max 0 d)) :: r', e)
+    | _ => let '(r', e) := ask now r in ((w, c) :: r', e)      (* not started: no message; never: taken by its endpoint / refused at once *)
+    end
+  end.
+
+(* what Net/Executor.v sees of a worker when the deadline of the worker phase is `dl` (absolute) *)
+Definition abs_stat_at (dl : Z) (c : tstat) : cstat :=
+  match c with
+  | TNotStarted => NotStarted
+  | TExited z => Exited z
+  | TLeaves d => if d <=? dl then Alive else Stuck
+  | TNever => Stuck
+  end.
+
+Definition abs_workers_at (dl : Z) (ws : list (nat * tstat)) : list (nat * cstat) :=
+  map (fun p => (fst p, abs_stat_at dl (snd p))) ws.
+
+(* the shm server as the teardown meets it *)
+Inductive sstat :=
+  | SGone                              (* not alive (or gone by the time of the request): nothing is asked, nothing is joined *)
+  | SHolds (segs : nat) (sweep : Z)    (* alive, holds `segs` segments; exits `sweep` ms after it acknowledged the ShutdownCommand, all unlinked *)
+  | SWedged (segs : nat).              (* alive, acknowledges, never gets through its sweep *)
+
+Inductive sact :=
+  | SJoin (timeout : option Z)         (* join of the live server after shm_client.shutdown() *)
+  | SKill.
+
+(* the shm phase for ANY way of choosing the join timeout; a server still alive after a join with a
+   timeout is killed.  Result: segments left behind?, calls, Some end time | None = never ends *)
+Definition shm_with (policy : Z -> option Z) (now : Z) (s : sstat) : bool * list sact * option Z :=
+  match s with
+  | SGone => (false, [], Some now)
+  | SHolds segs sweep =>
+      let sw := Z.max 0 sweep in
+      match policy now with
+      | None => (false, [SJoin None], Some (now + sw))
+      | Some t =>
+          if max_timeout <? t then (false, [SJoin (Some t)], Some now)    (* OverflowError, swallowed with the kill: the server finishes on its own *)
+          else if sw <=? Z.max 0 t then (false, [SJoin (Some t)], Some (now + sw))
+          else (Nat.ltb 0 segs, [SJoin (Some t); SKill], Some (now + Z.max 0 t))
+      end
+  | SWedged segs =>
+      match policy now with
+      | None => (false, [SJoin None], None)
+      | Some t =>
+          if max_timeout <? t then (Nat.ltb 0 segs, [SJoin (Some t)], Some now)
+          else (Nat.ltb 0 segs, [SJoin (Some t); SKill], Some (now + Z.max 0 t))
+      end
+  end.
+
+(* the three phases.  `dl_first`: the deadline of the worker phase is taken before the workers are
+   asked (true) or after (false); `shm_pol dl` : the timeout policy of the shm phase, which may look
+   at that deadline.  Result: workers afterwards, worker calls, end of the ask phase,
+   (segments left?, shm calls, Some end | None) *)
+Definition teardown_with (dl_first : bool) (shm_pol : Z -> Z -> option Z) (mono0 : Z)
+           (ws : list (nat * tstat)) (s : sstat)
+  : list (nat * tstat) * list tact * Z * (bool * list sact * option Z) :=
+  let '(ws1, t_ask) := ask 0 ws in
+  let now0 := if dl_first then 0 else t_ask in
+  let '(ws2, a, x) := reap_with (code_policy mono0 now0) t_ask ws1 in
+  (ws2, a, t_ask,
+   match x with
+   | None => (false, [], None)
+   | Some t1 => shm_with (shm_pol (now0 + grace)) t1 s
+   end).
+
+(* the code: deadline after the ask phase, the shm server is joined without a timeout *)
+Definition teardown_t := teardown_with false (fun _ _ => None).
+
+(* a neighbour, for contrast (TeardownProofs.one_deadline_leaves_segments): ONE deadline for everything,
+   taken first; the shm server gets what is left of it and is killed when it is over *)
+Definition teardown_one_deadline := teardown_with true (fun dl now => Some (Z.max 0 (dl - now))).
+
+Definition sweep_of (s : sstat) : Z := match s with SHolds _ sw => Z.max 0 sw | _ => 0 end.
+Definition abs_shm (s : sstat) : bool := match s with SGone => false | _ => true end.   (* alive, as Net/Executor.v sees it *)
+Definition wedged (s : sstat) : bool := match s with SWedged _ => true | _ => false end.
+Definition exited_workers (ws : list (nat * tstat)) : Z :=
+  fold_right (fun p n => match snd p with TExited _ => n + 1 | _ => n end) 0 ws.
